@@ -126,6 +126,7 @@ fn abs_rq(kind: &str, v: &J, sup: bool) -> J {
         "Sort" => t["cols"] = json!(sort_cols(v)),
         "Take" => {
             t["sorted"] = json!(v["sort"].as_array().map(|a| !a.is_empty()).unwrap_or(false));
+            t["cols"] = json!(sort_cols(&v["sort"]));
             t["part"] = json!(ints(&v["partition"]));
             let (s, e) = (&v["range"]["start"], &v["range"]["end"]);
             t["lo"] = json!(if s.is_null() { -1 } else { int_lit(s) });
@@ -138,8 +139,15 @@ fn abs_rq(kind: &str, v: &J, sup: bool) -> J {
         "Join" => {
             t["refs"] = json!(refs_of(&v["filter"]));
             t["side"] = json!(v["side"].as_str().unwrap_or(""));
+            if let Some(c) = v["with"]["columns"].as_array() { t["cols"] = json!(c.iter().filter_map(|x| x[1].as_i64()).collect::<Vec<_>>()); }
         }
         "DistinctOn" => t["part"] = json!(ints(v)),
+        // the distinct flag of a set operation is carried in `sorted`
+        "Union" | "Except" | "Intersect" => t["sorted"] = json!(v["distinct"].as_bool().unwrap_or(false)),
+        "From" | "Append" => {
+            // RQ level: the table reference lists the instance's columns
+            if let Some(c) = v["columns"].as_array() { t["cols"] = json!(c.iter().filter_map(|x| x[1].as_i64()).collect::<Vec<_>>()); }
+        }
         _ => {}
     }
     t
@@ -272,6 +280,12 @@ pub fn main(args: &[String]) -> i32 {
                         let decl: Vec<J> = input.iter().filter(|t| t["k"] == "Compute").map(|t| json!({"id": t["id"], "cx": t["cx"]})).collect();
                         writeln!(out, "{}", json!({"ev": "Split", "input": input, "output": ints(&p["output"]), "decl": decl,
                             "preceding": with_cols(&p["preceding"]), "atomic": with_cols(&p["atomic"])})).unwrap();
+                    }
+                    "preprocess" => {
+                        let input: Vec<J> = p["input"].as_array().map(|a| a.iter().map(|t| {
+                            match t.as_object().and_then(|m| m.iter().next()) { Some((k, v)) => abs_rq(k, v, true), None => base(t.as_str().unwrap_or("?"), true) }
+                        }).collect()).unwrap_or_default();
+                        writeln!(out, "{}", json!({"ev": "Pre", "input": input, "output": abs_seq(&p["output"])})).unwrap();
                     }
                     "select" => {
                         let sql = p["sql"].as_str().unwrap_or("");
